@@ -93,9 +93,6 @@ def work(arg):
     out["depth"] = res.max_depth
     out["sha"] = core.sha(r.text)
     out["size"] = len(prog)
-    if obs.stack_overflow:
-        out["inconclusive"] = "stack overflow"
-        return out
     mm = judge.outcome_mismatch(obs, res)
     if mm == "timeout":
         if judge.confirm_hang(r.text):
@@ -108,7 +105,7 @@ def work(arg):
         obs2 = core.run_one({"src": r.text, "bin": core.BIN_PLAIN})
         mm2 = judge.outcome_mismatch(obs2, res)
         if mm2:
-            sig = "model/" + ("crash" if obs.crashed else ("exit" if obs.code != (0 if res.ok else 103) else "stdout"))
+            sig = "model/" + ("crash" if obs.died else ("exit" if obs.code != (0 if res.ok else 103) else "stdout"))
             out["viol"].append((sig, mm, {"src": r.text, "oracle": "model-differential", "seed": seed,
                                           "expected": judge.expected_brief(res), "observed": obs.brief()}))
         else:
@@ -134,9 +131,9 @@ def work(arg):
         o2 = core.run_one({"src": r2.text})
         out["runs"] += 1
         out["embed"] = names
-        if o2.stack_overflow or o2.timeout:
-            out["inconclusive"] = "embedded run: stack overflow/timeout"
-        elif o2.crashed or o2.code != obs.code or o2.out != obs.out:
+        if o2.timeout:
+            out["inconclusive"] = "embedded run: timeout"
+        elif o2.died or o2.code != obs.code or o2.out != obs.out:
             why = "embedding the program in %s changes its behaviour: exit %s vs %s; %s" % (
                 "/".join(names), obs.code, o2.code, judge.first_diff(obs.out, o2.out))
             out["viol"].append(("embed/" + names[-1], why,
